@@ -10,7 +10,7 @@ CELL = "atomic_refcell 0.1.14 borrow flags are atomic and exact (modelled, not v
 TYPES = "rustc's type system: a value passed as R has type R; no live guard during a &mut World call"
 
 
-def plan(profiles, quick=300, thorough=30000, **kw):
+def plan(profiles, quick=800, thorough=30000, **kw):
     d = {"engine": "plan", "args": {"profiles": profiles}, "quick": {"cases": quick},
          "thorough": {"cases": thorough, "small-scope": True},
          "search": {"cases": 4000}}
@@ -18,7 +18,7 @@ def plan(profiles, quick=300, thorough=30000, **kw):
     return d
 
 
-def trace(profiles, quick=60, thorough=3000, nopar=False, **kw):
+def trace(profiles, quick=120, thorough=3000, nopar=False, **kw):
     d = {"engine": "trace", "args": {"profiles": profiles}, "quick": {"cases": quick},
          "thorough": {"cases": thorough}, "search": {"cases": 800}, "nopar": nopar}
     d["args"].update(kw)
